@@ -39,6 +39,7 @@ var c02Collision = map[string]string{
 	"with-unknown-inputs":       "on: push\njobs:\n  a:\n    runs-on: ubuntu-latest\n    steps:\n      - uses: actions/checkout@v4\n        with:\n          bogus_one: 1\n          bogus_two: 2\n          BOGUS_three: 3\n      - uses: actions/cache@v4\n",
 	"deprecated+ifcond":         "on: push\njobs:\n  a:\n    runs-on: ubuntu-latest\n    if: ${{ true }} && false\n    steps:\n      - run: |\n          echo '::set-output name=a::b'\n          echo '::save-state name=a::b'\n          echo '::set-env name=a::b'\n          echo '::add-path::b'\n        if: ${{ false }} || true\n",
 	"credentials+container":     "on: push\njobs:\n  a:\n    runs-on: ubuntu-latest\n    container:\n      image: x\n      credentials:\n        username: u\n        password: plain\n    services:\n      s1:\n        image: y\n        credentials:\n          username: u\n          password: plain\n      s2:\n        image: z\n        credentials:\n          username: u\n          password: plain2\n    steps:\n      - run: echo\n",
+	"matrix-include-type-merge": "on: push\njobs:\n  a:\n    runs-on: ubuntu-latest\n    strategy:\n      matrix:\n        include:\n          - ${{ env }}\n          - ${{ fromJSON('{\"a\":1,\"b\":true,\"c\":\"x\",\"d\":null}') }}\n          - ${{ vars }}\n          - ${{ fromJSON('{\"a\":\"s\",\"e\":[1],\"f\":{\"g\":1}}') }}\n          - a: 1.5\n            h: {i: j}\n    steps:\n      - run: echo ${{ matrix.zz.yy }} ${{ matrix.a.b }} ${{ matrix.e.f }} ${{ matrix.f.g.h }} ${{ matrix.h.i.j }} ${{ toJSON(matrix) == 1 }}\n",
 	"workflow-call-self":        "on:\n  workflow_call:\n    inputs:\n      a:\n        type: string\n      b:\n        type: number\n        required: true\n    secrets:\n      s:\n        required: true\n    outputs:\n      o1:\n        value: ${{ jobs.a.outputs.nope }}\n      o2:\n        value: ${{ jobs.nope.outputs.x }}\njobs:\n  a:\n    runs-on: ubuntu-latest\n    outputs:\n      x: y\n    steps:\n      - run: echo ${{ inputs.zzz }} ${{ secrets.qqq }}\n",
 }
 
